@@ -289,7 +289,7 @@ def _e2e_worker(payload):
     K = 4
     sizes = symbol_bytes(K)
 
-    async def one(chunks, eager=False):
+    async def one(chunks, eager=False, republish=False):
         # eager: the transport is fast and the database is slow - bytes are delivered as soon as they are written, while the
         # sender's add_event is still running, and every COMMIT takes a tenth of a second.  An id must not reach the other
         # workers before they can see the event.
@@ -385,21 +385,37 @@ def _e2e_worker(payload):
                 await settle()
                 trace = []
 
+                seen_n = {}
+
                 def flush():
                     idsym = {uni.conc[s]["id"]: s for s in uni.order}
                     for kind, w, hexid in log:
+                        # (an event that was removed and is accepted again is announced again: its second look-up / push on a
+                        #  worker is the symbol with suffix 2, as in the plan)
+                        n = seen_n[(kind, w, hexid)] = seen_n.get((kind, w, hexid), 0) + 1
+                        sym = idsym.get(hexid)
+                        if sym is not None and n > 1 and republish:
+                            sym = "%s%d" % (sym, n)
                         if kind == "Lookup":
-                            trace.append({"a": "Lookup", "w": w, "chunk": [[idsym[hexid], k + 1] for k in range(K)] if hexid in idsym
+                            trace.append({"a": "Lookup", "w": w, "chunk": [[sym, k + 1] for k in range(K)] if sym is not None
                                           else [["?" + hexid[:10], len(hexid) // 2]]})
                         else:
-                            trace.append({"a": "Push", "w": w, "i": idsym.get(hexid, "?")})
+                            trace.append({"a": "Push", "w": w, "i": sym or "?"})
                     del log[:]
 
-                plan = [(1, "a"), (1, "b"), (2, "c")]
+                # republish: `a` is accepted, removed from the shared database (delete_event: a deletion, an expiry) and accepted
+                # again by the same worker - a second acceptance is a second announcement
+                plan = [(1, "a"), ("del", "a"), (1, "a"), (2, "c")] if republish else [(1, "a"), (1, "b"), (2, "c")]
                 ci = 0
+                times = {}
                 for w, sym in plan:
+                    if w == "del":
+                        await sts[1].delete_event(uni.conc[sym]["id"])
+                        await settle(10)
+                        continue
                     await sts[w].add_event(D._clone(uni.conc[sym]))
-                    trace.append({"a": "Announce", "w": w, "i": sym})
+                    times[sym] = times.get(sym, 0) + 1
+                    trace.append({"a": "Announce", "w": w, "i": sym if times[sym] == 1 else "%s%d" % (sym, times[sym])})
                     await settle(10)
                     # deliver what is in flight in the chosen chunk sizes, up then down
                     for wire, rd in ((wire_up, reader_s), (wire_down, reader_c)):
@@ -423,7 +439,7 @@ def _e2e_worker(payload):
                     flush()
                 # the local pushes (an event accepted by worker w is pushed to w's own subscriber by w itself) are not the
                 # notifier's: keep only pushes on the *other* worker
-                trace = [ln for ln in trace if not (ln["a"] == "Push" and ln["i"] in [s for ww, s in plan if ww == ln["w"]])]
+                trace = [ln for ln in trace if not (ln["a"] == "Push" and ln["i"].rstrip("2") in [s for ww, s in plan if ww == ln["w"]])]
                 trace.append({"a": "End"})
                 for w in (1, 2):
                     inbox[w].put_nowait(None)
@@ -443,7 +459,8 @@ def _e2e_worker(payload):
                     fn()
 
     async def main():
-        return [await one(c) for c in chunkings] + [await one(c, eager=True) for c in chunkings[:1]]
+        return [await one(c) for c in chunkings] + [await one(c, eager=True) for c in chunkings[:1]] \
+            + [await one(c, republish=True) for c in chunkings[:1]]
 
     return asyncio.run(main())
 
@@ -675,10 +692,21 @@ def run(prop, tier, seed, **kw):
         [[rnd.randint(1, 40) for _ in range(5)] for _ in range({"quick": 8, "thorough": 80}[tier])]
     payloads = [(chunkings[k:k + 4], seed) for k in range(0, len(chunkings), 4)]
     e2e = [tr for res in pool.map_in_workers("harness.checks.c20", "_e2e_worker", payloads, config={"run_notifier": True}) for tr in res]
+    chunkings = [c for p_ in payloads for c in list(p_[0]) + [["eager"] + list(p_[0][0])] + [["republish"] + list(p_[0][0])]]
     defs = {"TD_Workers": {1, 2}, "TD_IdsOf": {1: ["a", "b"], 2: ["c"]}, "TD_K": 4}
-    verdicts, vstats = tracedata.validate("Notifier_Trace", defs, e2e, batch=50)
+    defs_rep = {"TD_Workers": {1, 2}, "TD_IdsOf": {1: ["a", "a2"], 2: ["c"]}, "TD_K": 4}
+    is_rep = [bool(c and c[0] == "republish") for c in chunkings]
+    idx_n = [k for k in range(len(e2e)) if not is_rep[k]]
+    idx_r = [k for k in range(len(e2e)) if is_rep[k]]
+    v_n, vstats = tracedata.validate("Notifier_Trace", defs, [e2e[k] for k in idx_n], batch=50)
+    v_r, vstats_r = tracedata.validate("Notifier_Trace", defs_rep, [e2e[k] for k in idx_r], batch=50)
     out.add_model(vstats)
-    chunkings = [c for p_ in payloads for c in list(p_[0]) + [["eager"] + list(p_[0][0])]]
+    out.add_model(vstats_r)
+    verdicts = {}
+    for pos, k in enumerate(idx_n):
+        verdicts[k] = v_n[pos]
+    for pos, k in enumerate(idx_r):
+        verdicts[k] = v_r[pos]
     for k, tr in enumerate(e2e):
         out.cov["evaluations"] += 1
         out.cov["traces_validated_against_impl"] += 1
